@@ -22,6 +22,7 @@ import (
 	"github.com/paulsonkoly/chess-3/move"
 	"github.com/paulsonkoly/chess-3/params"
 	"github.com/paulsonkoly/chess-3/search"
+	"github.com/paulsonkoly/chess-3/transp"
 	"github.com/paulsonkoly/chess-3/uci"
 
 	"verifharness/internal/gen"
@@ -457,6 +458,112 @@ func (r *rec) sweepModes(corpus []string, K int, limitsOnly bool) {
 	}
 }
 
+// collide: searches on positions that the transposition table cannot tell apart. The table keeps 16 bits of the
+// hash per entry; in a small table two different positions with the same bucket and the same 16 bits are found
+// by brute force over a pool (roots and their children). Scenario A: X is searched, then Y (same bucket and
+// signature) on the same engine under every kind of early abort - whatever the table hands back for Y belongs to
+// X. Scenario B: X is searched deeply, then Y whose CHILD Z collides with X: replies read from the table after
+// the best move belong to X.
+func (r *rec) collide(corpus []string) {
+	type cand struct {
+		fen string
+		b   *board.Board
+	}
+	var pool []cand
+	for len(pool) < 2500 {
+		fen, _, b := r.rootWithPrefix(corpus)
+		if b == nil {
+			continue
+		}
+		_ = fen
+		if nb, err := board.FromFEN(b.FEN()); err != nil || nb.InvalidPieceCount() {
+			continue
+		}
+		pool = append(pool, cand{b.FEN(), b})
+	}
+	eng := 0
+	for !r.full() {
+		tt := []int{32, 64, 1024, 4096}[r.rng.Intn(4)]
+		probe := search.New(tt)
+		tab := probe.VerifTT()
+		type key struct {
+			b   int
+			sig uint16
+		}
+		bySig := map[key][]int{}
+		for i, c := range pool {
+			bi, sg := transp.VerifBucketSig(tab, c.b.Hash())
+			bySig[key{bi, sg}] = append(bySig[key{bi, sg}], i)
+		}
+		type pair struct {
+			x, y  int
+			child bool
+		}
+		var pairs []pair
+		for _, l := range bySig {
+			for i := 0; i < len(l); i++ {
+				for j := 0; j < len(l); j++ {
+					if i != j && pool[l[i]].b.Hash() != pool[l[j]].b.Hash() {
+						pairs = append(pairs, pair{l[i], l[j], false})
+					}
+				}
+			}
+		}
+		ms := move.NewStore()
+		for yi := 0; yi < len(pool) && len(pairs) < 4000; yi += 1 + r.rng.Intn(6) {
+			y := pool[yi].b
+			for _, m := range proj.Playable(y, ms) {
+				rv := y.MakeMove(m)
+				bi, sg := transp.VerifBucketSig(tab, y.Hash())
+				h := y.Hash()
+				y.UndoMove(m, rv)
+				for _, xi := range bySig[key{bi, sg}] {
+					if pool[xi].b.Hash() != h {
+						pairs = append(pairs, pair{xi, yi, true})
+					}
+				}
+			}
+		}
+		r.rng.Shuffle(len(pairs), func(i, j int) { pairs[i], pairs[j] = pairs[j], pairs[i] })
+		for _, p := range pairs {
+			if r.full() {
+				break
+			}
+			if len(pairs) > 60 && r.rng.Intn(len(pairs)/60+1) != 0 {
+				continue
+			}
+			r.t++
+			eng++
+			s := search.New(tt)
+			x, y := pool[p.x], pool[p.y]
+			bx, _ := board.FromFEN(x.fen)
+			by, _ := board.FromFEN(y.fen)
+			r.search(s, eng, x.fen, nil, bx, request{depth: 3 + r.rng.Intn(4), hard: -1, soft: -1, stop: "none"}, tt, true)
+			var rqs []request
+			if p.child {
+				rqs = []request{{depth: 1 + r.rng.Intn(3), hard: -1, soft: -1, stop: "none"}, {depth: 30, hard: -1, soft: 1 + r.rng.Intn(200), stop: "none"},
+					{depth: 1 + r.rng.Intn(2), hard: -1, soft: -1, stop: "none"}}
+			} else {
+				rqs = []request{{depth: 3, hard: 0, soft: -1, stop: "none"}, {depth: 3, hard: 1 + r.rng.Intn(40), soft: -1, stop: "none"},
+					{depth: 2, hard: -1, soft: -1, stop: "pre"}, {depth: 1 + r.rng.Intn(2), hard: -1, soft: -1, stop: "none"}}
+			}
+			for _, rq := range rqs {
+				if r.full() {
+					break
+				}
+				// each on the state X left behind
+				s2 := s
+				_ = s2
+				r.search(s, eng, y.fen, nil, by, rq, tt, false)
+				if !p.child {
+					// put X back in front
+					r.search(s, eng, x.fen, nil, bx, request{depth: 2 + r.rng.Intn(3), hard: -1, soft: -1, stop: "none"}, tt, false)
+				}
+			}
+		}
+	}
+}
+
 // pv: deeper searches along games on one engine (warmed tables), tiny and normal tables (C07)
 func (r *rec) pv(corpus []string, maxDepth int) {
 	eng := 0
@@ -782,6 +889,8 @@ func main() {
 	}()
 	corpus := gen.LoadCorpus(*corpusPath)
 	switch *mode {
+	case "collide":
+		r.collide(corpus)
 	case "limits":
 		r.sweepModes(corpus, *k, true)
 	case "sweep":
